@@ -195,7 +195,11 @@ def get_inwards_mask(
         Boolean mask of inwards orientations from provided triangles
     """
 
-    msh = vertices[triangles]
+    # the seed test (is_facet_inwards) displaces a point by a fixed distance and compares with
+    # fixed tolerances: run it on a copy of the mesh normalised to unit size at the origin
+    vmin = np.min(vertices, axis=0)
+    size = np.max(np.max(vertices, axis=0) - vmin)
+    msh = ((vertices - vmin) / size)[triangles]
     mask = np.full(len(triangles), False)
     indices = list(range(len(triangles)))
 
